@@ -709,6 +709,9 @@ func TestC16(t *testing.T) {
 	core.DFS(r, core.Check[manyCallersCase]{Name: "many-callers", Gen: func(s core.Source) manyCallersCase {
 		return manyCallersCase{Fn: core.Pick(s, []string{"Extract", "Merge", "Concatenate"}, "fn"), Callers: []int{40, 200, 600}[s.Choose(3, "callers")], Rounds: 30}
 	}, Exec: execManyCallers, HangLimit: 120 * time.Second}, 0)
+	core.DFS(r, core.Check[keysInUseCase]{Name: "key-sequence-in-use", Gen: func(s core.Source) keysInUseCase {
+		return keysInUseCase{Fn: "Catalog.Extract", Rounds: r.N(3000, 30000)}
+	}, Exec: execKeysInUse("C16"), NoJournal: true, HangLimit: 300 * time.Second}, 0)
 	core.DFS(r, core.Check[keyIdentityCase]{Name: "key-identity", Gen: genKeyIdentity, Exec: execKeyIdentity, NoJournal: true}, 0)
 }
 
